@@ -197,6 +197,13 @@ def opUnf (args : List String) (impl : String) : Result :=
           -- C20: the key cache does not change the result
           (if cacheS != "-" && parts.length == 4 && nth parts 3 != final then
             [s!"C20 key-cache-changes-unfolded-value cap={cacheS} {sig}"] else [])
+        -- C10: the Unfolder as consumer of extended events (delivered through EnsureExtVisitor's
+        -- adapters): whatever the value oracle finds on a stream that contains one is also a
+        -- failure of "an extended event means its expansion"
+        let hasExt := xs.any fun x => match x with | .ev _ => false | _ => true
+        let fails := fails ++ (if hasExt then fails.filterMap fun f =>
+            if f.startsWith "C13 " then some ("C10 unfolder-extended-event-differs-from-expansion " ++ (f.drop 4).toString) else none
+          else [])
         { model := some model, fails := fails }
     | _, _ => noModel
   | _ => noModel
